@@ -50,12 +50,12 @@ CHECKS["C05"] = ("exploration",
  "DESIGN.md §4 C05")
 CHECKS["C08"] = ("exploration",
  "exhaustive single-byte mutation of the query corpus, builtin x boundary-value grid, size families, and all CLI argument sequences up to length 3",
- "(a) every deletion, insertion and replacement of a 40-token alphabet at every byte position of every corpus query is parsed and, if accepted, compiled, run on 3 inputs under a poll budget and rendered (Marshal, Preview, Error()); (b) every builtin name/arity is called with every value of a 60-value universe of wrong-typed and boundary values in all Go representations (NaN/inf, huge *big.Int, out-of-range json.Number, invalid UTF-8) as input and arguments; (b2) 28 size families (k bindings, defs, parameters, interpolations, nesting depths, labels, recursion depth, k variables through WithVariables and --arg) for every k = 1..140 (thorough 600), which puts a case on every capacity threshold; (c) every argument sequence of length <= 3 over a 50-token alphabet x 7 stdin texts in-process (hook VerifRun, under recover), a deterministic 2% slice again through the real binary. Per case: no panic or fatal error, ParseError.Offset within the source, failures as error values, exit status in 0..5, no Go stack trace on stderr.",
+ "(a) every deletion, insertion and replacement of a 40-token alphabet at every byte position of every corpus query is parsed and, if accepted, compiled, run on 3 inputs under a poll budget and rendered (Marshal, Preview, Error()); (b) every builtin name/arity is called with every value of a 60-value universe of wrong-typed and boundary values in all Go representations (NaN/inf, huge *big.Int, out-of-range json.Number, invalid UTF-8) as input and arguments; (b2) 28 size families (k bindings, defs, parameters, interpolations, nesting depths, labels, recursion depth, k variables through WithVariables and --arg) for every k = 1..140 (thorough 600), which puts a case on every capacity threshold; (c) every argument sequence of length <= 3 over a 50-token alphabet x 7 stdin texts in-process (hook VerifRun, under recover), a deterministic 2% slice again through the real binary; (d) large inputs: 5 units x 6 terminators x 11 sizes around 4 KiB and 16 KiB x 5 tails x 7 modes x 4 transports (file, pipe whole, pipe in chunks). Per case: no panic or fatal error, ParseError.Offset within the source, failures as error values, exit status in 0..5, no Go stack trace on stderr.",
  "Hangs and memory exhaustion of individual cases are recorded as skipped (the statement excludes programs that legitimately need unbounded resources); corpus queries that deliberately test resource limits are not used as mutation bases.",
  "DESIGN.md §4 C08")
 CHECKS["C09"] = ("model_checking",
  "exhaustive enumeration of expression trees rendered under a reference grammar, plus print/re-parse and re-spacing invariance",
- "Every expression tree with up to three binary operators over all 24 operators, and every tree up to 5 nodes (thorough 6) over unary sign, all suffix spellings, as/def/label, try/catch, if, reduce, array/object/call/interpolation contexts, is rendered to text with exactly the parentheses the reference grammar (jq's precedence and associativity table) requires, and gojq.Parse must return exactly that tree; every ordered pair and triple of operators is covered in both groupings. Bindings as right operands of each operator pair are checked against jq's `Term as Patterns | Pipe` rule. Every generated text, every text of a surface grammar (~100 term/suffix/string/format/pattern/keyword-key forms, <= 3 nodes, thorough 4), module headers and every corpus query must satisfy Parse(String(q)) deep-equal q with String a fixpoint, and yield the identical AST under every re-spacing (7 gap kinds incl. comments and CRLF, uniformly and at each single gap); chains of non-associative operators must be rejected.",
+ "Every expression tree with up to three binary operators over all 24 operators, and every tree up to 5 nodes (thorough 6) over unary sign, all suffix spellings, as/def/label, try/catch, if, reduce, array/object/call/interpolation contexts, is rendered to text with exactly the parentheses the reference grammar (jq's precedence and associativity table) requires, and gojq.Parse must return exactly that tree; every ordered pair and triple of operators is covered in both groupings. Bindings as right operands of each operator pair are checked against jq's `Term as Patterns | Pipe` rule. Every generated text, every text of a surface grammar (~100 term/suffix/string/format/pattern/keyword-key forms, <= 3 nodes, thorough 4), module headers and every corpus query must satisfy Parse(String(q)) deep-equal q with String a fixpoint, and yield the identical AST under every re-spacing (7 gap kinds incl. comments and CRLF, uniformly and at each single gap); chains of non-associative operators must be rejected. String literals: every sequence of <= 3 pieces out of 28 (raw bytes incl. invalid UTF-8, all escapes, lone and paired surrogate escapes, interpolations) in 9 positions a string can stand must round-trip to the same AST and the same value.",
  "Trusted: the transcription of jq's precedence table in the renderer and the reference tokenizer. Two known findings (source of `as` parsed as an expression; `. .[0]` round trip) are attributed by exact tree comparison. An un-regenerated edit of parser.go.y is invisible.",
  "DESIGN.md §4 C09")
 CHECKS["C03"] = ("exploration",
